@@ -51,6 +51,8 @@ func runC12(c *core.Ctx) {
 	wireIntegerSinks(c, newDecoderSet(c), "C12.negative-length", "C12.negative-length", true)
 	c.Doc("C07.loop", "no loop bound comes from an unchecked wire integer unless every iteration consumes input (a hostile count keeps the object's goroutine busy for minutes: nobody is answered) — rule shared with C07", 15)
 	wireIntegerSinks(c, newDecoderSet(c), "", "C07.loop", false)
+	c.Doc("C07.index", "a value read from the input is indexed with a constant only after its length was tested (an index panic in a mailbox goroutine takes the server down) — rule shared with C07", 1)
+	ruleWireStringIndex(c, newDecoderSet(c), "C07.index")
 	c.Doc("C12.locks", "bus/**: every mutex released on every path (a leaked lock wedges the object/service for every client); no blocking channel operation while a mutex is held", 30)
 	ruleBusLocks(c, lc)
 	// a send on a closed mailbox panics in a connection goroutine and takes the
